@@ -118,7 +118,7 @@ def run(ctx):
         corpus_cases=ncorp,
     )
     total = evals + rejected
-    ctx.need(total > 0 and rejected <= 0.15 * total, "compiler rejected %d of %d generated programs (acceptance floor 85%%)" % (rejected, total))
+    ctx.need(total > 0 and rejected <= 0.03 * total, "compiler rejected %d of %d generated programs (acceptance floor 97%%)" % (rejected, total))
     ctx.need(agree >= 100, "fewer than 100 programs observed agreeing")
 
 
